@@ -922,10 +922,18 @@ func (e *Engine) findIndicesTeddy(haystack []byte) (int, int, bool) {
 
 // findIndicesTeddyAt returns indices using Teddy at position - zero alloc.
 func (e *Engine) findIndicesTeddyAt(haystack []byte, at int) (int, int, bool) {
+	return e.findIndicesTeddyAtWithState(haystack, at, nil)
+}
+
+// findIndicesTeddyAtWithState is findIndicesTeddyAt for callers that already hold
+// a SearchState (FindAll/Count loops): the NFA fallbacks (longest mode, a resume
+// position at the end of the haystack, an incomplete prefilter) run on that
+// state instead of taking a second one from the pool. state may be nil.
+func (e *Engine) findIndicesTeddyAtWithState(haystack []byte, at int, state *SearchState) (int, int, bool) {
 	// Longest (POSIX) mode: the literal engine reports the first alternative that
 	// matches at a position, not the longest one.
 	if e.prefilter == nil || e.longest || at >= len(haystack) {
-		return e.findIndicesNFAAt(haystack, at)
+		return e.findIndicesNFAAtOptState(haystack, at, state)
 	}
 
 	atomic.AddUint64(&e.stats.PrefilterHits, 1)
@@ -948,7 +956,7 @@ func (e *Engine) findIndicesTeddyAt(haystack []byte, at int) (int, int, bool) {
 	if literalLen > 0 {
 		return pos, pos + literalLen, true
 	}
-	return e.findIndicesNFAAt(haystack, pos)
+	return e.findIndicesNFAAtOptState(haystack, pos, state)
 }
 
 // digitCandidateBudget is the number of digit candidates that may fail
@@ -1142,10 +1150,16 @@ func (e *Engine) findIndicesAhoCorasick(haystack []byte) (int, int, bool) {
 
 // findIndicesAhoCorasickAt returns indices using Aho-Corasick starting at position 'at' - zero alloc.
 func (e *Engine) findIndicesAhoCorasickAt(haystack []byte, at int) (int, int, bool) {
+	return e.findIndicesAhoCorasickAtWithState(haystack, at, nil)
+}
+
+// findIndicesAhoCorasickAtWithState is findIndicesAhoCorasickAt for callers that
+// already hold a SearchState; see findIndicesTeddyAtWithState. state may be nil.
+func (e *Engine) findIndicesAhoCorasickAtWithState(haystack []byte, at int, state *SearchState) (int, int, bool) {
 	// Longest (POSIX) mode: the literal engine reports the first alternative that
 	// matches at a position, not the longest one.
 	if e.ahoCorasick == nil || e.longest || at >= len(haystack) {
-		return e.findIndicesNFAAt(haystack, at)
+		return e.findIndicesNFAAtOptState(haystack, at, state)
 	}
 	atomic.AddUint64(&e.stats.AhoCorasickSearches, 1)
 
@@ -1199,11 +1213,11 @@ func (e *Engine) findIndicesAtWithState(haystack []byte, at int, state *SearchSt
 	case UseBranchDispatch:
 		return e.findIndicesBranchDispatchAt(haystack, at)
 	case UseTeddy:
-		return e.findIndicesTeddyAt(haystack, at)
+		return e.findIndicesTeddyAtWithState(haystack, at, state)
 	case UseDigitPrefilter:
 		return e.findIndicesDigitPrefilterAtWithState(haystack, at, state)
 	case UseAhoCorasick:
-		return e.findIndicesAhoCorasickAt(haystack, at)
+		return e.findIndicesAhoCorasickAtWithState(haystack, at, state)
 	case UseMultilineReverseSuffix:
 		return e.multilineReverseSuffixSearcher.FindIndicesAtWithCaches(haystack, at, state.stratFwdCache)
 	case UseAnchoredLiteral:
@@ -1211,6 +1225,15 @@ func (e *Engine) findIndicesAtWithState(haystack []byte, at int, state *SearchSt
 	default:
 		return e.findIndicesNFAAtWithState(haystack, at, state)
 	}
+}
+
+// findIndicesNFAAtOptState runs the NFA search on the caller's state if it holds
+// one, and on a pooled one otherwise.
+func (e *Engine) findIndicesNFAAtOptState(haystack []byte, at int, state *SearchState) (int, int, bool) {
+	if state == nil {
+		return e.findIndicesNFAAt(haystack, at)
+	}
+	return e.findIndicesNFAAtWithState(haystack, at, state)
 }
 
 // findIndicesNFAAtWithState searches using NFA starting at position - zero alloc.
